@@ -129,6 +129,7 @@ type AtCall struct {
 
 type LoopSpec struct {
 	Invariants []*Clause
+	Steps      []*Clause // relate the state at the start of an iteration (prev(e)) to the state at its end
 	Assigns    []string
 	HasAssigns bool
 }
@@ -166,11 +167,19 @@ type Contract struct {
 	Notes    []string
 }
 
+// SpecDefine is a non-recursive spec function written in the contract file.
+type SpecDefine struct {
+	Name   string
+	Params []string
+	Body   *Clause
+}
+
 type PkgSpec struct {
 	Pkg        string
 	Dir        string
 	Contracts  map[string]*Contract
 	GlobalInvs []*Clause
+	Defines    map[string]*SpecDefine // package-level spec functions: define name(a, b) == expr
 	TypeInvs   map[string][]*Clause // type name -> invariants over `self`
 	TypeChanInvs map[string][]*ChanInvDecl // type name -> channel invariants of fields (ChanSrc = field name)
 	TypeSemaphores map[string][]string     // type name -> fields holding counting-semaphore channels
@@ -269,6 +278,32 @@ func loadPkgSpec(path, pkgPath string) (*PkgSpec, error) {
 		if i := strings.IndexAny(t, " \t"); i >= 0 {
 			word, rest = t[:i], strings.TrimSpace(t[i+1:])
 		}
+		if word == "define" {
+			// define name(p1, p2) == expr
+			i := strings.Index(rest, "==")
+			lp := strings.Index(rest, "(")
+			rp := strings.Index(rest, ")")
+			if i < 0 || lp < 0 || rp < lp || rp > i {
+				return nil, fmt.Errorf("%s:%d: bad define (define name(params) == expr)", path, ln.n)
+			}
+			d := &SpecDefine{Name: strings.TrimSpace(rest[:lp])}
+			for _, p := range strings.Split(rest[lp+1:rp], ",") {
+				if p = strings.TrimSpace(p); p != "" {
+					d.Params = append(d.Params, p)
+				}
+			}
+			c, err := parseClause(strings.TrimSpace(rest[i+2:]), path, ln.n)
+			if err != nil {
+				return nil, err
+			}
+			d.Body = c
+			if ps.Defines == nil {
+				ps.Defines = map[string]*SpecDefine{}
+			}
+			ps.Defines[d.Name] = d
+			cur = nil
+			continue
+		}
 		if word == "global-invariant" {
 			c, err := parseClause(rest, path, ln.n)
 			if err != nil {
@@ -353,6 +388,14 @@ func loadPkgSpec(path, pkgPath string) (*PkgSpec, error) {
 					return nil, err
 				}
 				ls.Invariants = append(ls.Invariants, c)
+			case "step":
+				// loop N step [label] pred: holds at the end of every iteration
+				// that goes round again; prev(e) is e at the start of that iteration
+				c, err := parseClause(parts[2], path, ln.n)
+				if err != nil {
+					return nil, err
+				}
+				ls.Steps = append(ls.Steps, c)
 			case "assigns":
 				ls.HasAssigns = true
 				if parts[2] != "nothing" {
